@@ -301,6 +301,15 @@ class AddrV:
         self.inner = inner
 
 
+class SlotV:
+    """pointee of a Box::new_uninit(): a heap slot that is written through a raw pointer before the box is used"""
+    __slots__ = ('cell', 'cells')
+
+    def __init__(self, cell):
+        self.cell = cell
+        self.cells = frozenset([cell])
+
+
 class PyFn:
     """a harness-supplied function value (symbolic transformer closure)"""
     __slots__ = ('fn',)
